@@ -691,10 +691,17 @@ func Match(env *model.Env, t *model.Type, v *value.Value, got any) error {
 	case model.KUnion:
 		c := t.Cases[v.Case]
 		if c == nil {
-			if got != nil {
-				return fmt.Errorf("expected null, got %s", show(got))
+			if got == nil {
+				return nil
 			}
-			return nil
+			// the document does not say how the null case of a tagged union is written; the tagged
+			// form {"null": null} is accepted as well (cross-language agreement is C03's subject)
+			if obj, ok := got.(map[string]any); ok && len(obj) == 1 && !UnionIsSimple(env, t) {
+				if x, has := obj["null"]; has && x == nil {
+					return nil
+				}
+			}
+			return fmt.Errorf("expected null, got %s", show(got))
 		}
 		if UnionIsSimple(env, t) {
 			return Match(env, c, v.Items[0], got)
